@@ -703,17 +703,17 @@ def main():
             t = 'package a\n' + '\n'.join(f'struct S{i} {"root" if i == 0 else ""} {{ a S{i+1} b S{i+1} }}' for i in range(depth))
             return hexline('P', (t + f'\nstruct S{depth} {{ x int64 }}').encode())
         times = {}
-        for d in (12, 20):
+        for d in (12, 12, 21):
             t1 = time.time()
-            vlib.run_lines(gobin, [chain(d)], timeout=120)
-            times[d] = time.time() - t1
+            vlib.run_lines(gobin, [chain(d)], timeout=300)
+            times[d] = min(times.get(d, 1e9), time.time() - t1)
         coverage['recursion_marking_probe_s'] = {str(k): round(v, 3) for k, v in times.items()}
-        if times[20] > 0.12 and times[20] > 6 * times[12]:
+        if times[21] > 0.3 and times[21] > 4 * times[12]:
             kid = 'C12-exponential-recursion-marking'
             if kid in known:
                 verdict.known_finding(kid, known[kid]['what_fails'])
             else:
-                verdict.violation(dict(input='chain of 20 structs, two references each', seconds=times),
+                verdict.violation(dict(input='chain of 21 structs, two references each', seconds=times),
                                   'computeRecursive takes time exponential in the schema depth')
     if info['broken'] and not verdict.violations:
         verdict.violation(dict(broken=info['broken'], searched=f'{n_eval} inputs, none fails'),
